@@ -4,6 +4,7 @@ from vlib import *
 from pipeline import *
 
 PID = "C11"
+EXTRA_VALIDATED = []     # runs validated by trace specs inside helper sections
 
 
 def run(tier, seed):
@@ -23,6 +24,7 @@ def run(tier, seed):
     rt, validated, ts = valve_trace(PID, tier, seed, w, v, lay, tp)
     reps.append(rt)
     mc.append(ts)
+    validated += sum(EXTRA_VALIDATED)
     nviol, _ = v.finish()
     cov = std_cov(st + mc + [g], reps, {
         "rule": "one case = one complete behaviour of the exchange specification (configuration + server reaction per request) "
@@ -54,6 +56,7 @@ def unreal2_part(tier, seed, w, v, lay, tp, mc):
     mc.append(behaviours("MC_Unreal2.tla", cfg_for(tier, "Gen_Unreal2.cfg"), b, PID.lower() + "_genu"))
     r = vhr(["unreal2-behaviours", "--layouts", lay, "--in", b, "--only", PID], 4 if quick else 40, seed, tier, name=PID.lower() + "u")
     v.add_report(r, "unreal2 behaviours")
-    rt, _, ts = unreal2_trace(PID, tier, seed, w, v, lay)
+    rt, nval, ts = unreal2_trace(PID, tier, seed, w, v, lay)
     mc.append(ts)
+    EXTRA_VALIDATED.append(nval)
     return [r, rt]
